@@ -1,4 +1,5 @@
 import Lessm.Props.C17
+import Lessm.Props.C17Exp
 open Lessm.Builtins
 #print axioms C17_round_near
 #print axioms C17_round_tie
@@ -9,3 +10,13 @@ open Lessm.Builtins
 #print axioms C17_apply
 #print axioms C17_incdec
 #print axioms C17_passthrough
+#print axioms Lessm.Num.C17_exp_partition
+#print axioms Lessm.Num.C17_exp_conservative
+#print axioms Lessm.Num.C17_exp_nil
+#print axioms Lessm.Num.C17_exp_unit_no_exp
+#print axioms Lessm.Num.C17_exp_e_letter
+#print axioms Lessm.Num.C17_exp_em
+#print axioms Lessm.Num.C17_exp_reads
+#print axioms Lessm.Num.C17_exp_value_neg
+#print axioms Lessm.Num.C17_exp_value_pos
+#print axioms Lessm.Num.C17_exp_value_nosign
